@@ -100,6 +100,27 @@ Theorem C01_K8_wma_overflow_nan :
   map PrimFloat.is_nan (last_out [oN 0 KWma (Pm 2 0 0 0); oX 0 1.7e308; oX 0 1.7e308; oX 0 1.7e308]) = [true].
 Proof. vm_compute. reflexivity. Qed.
 
+(* ---- the rounding component, PROVED for SimpleMovingAverage on binary64 (Flocq): for every period below 2^53 and every
+        stream of up to 2^49 finite inputs bounded in magnitude by M (2^-960 <= M, 3((n+2)M+1) <= 2^1000, i.e. no overflow),
+        every output is finite and within tau(t)*M of the exact mean of the last min(t,n) inputs ---- *)
+From Coq Require Import Reals List Floats.
+From Flocq Require Import Core.
+From TA Require Import FloatInst Proofs.XSma Proofs.Wiring Proofs.FloatErr Proofs.FloatSma.
+Theorem C01_sma_binary64_within_tau : forall p s xs M, sma_new FOps p = Ok s -> (p < 9007199254740992)%N ->
+  (bpow radix2 (-960) <= M)%R -> Forall (okin M) xs -> (3 * ((INR (N.to_nat p) + 2) * M + 1) <= BIG)%R ->
+  (INR (length xs) * u <= / 16)%R ->
+  Forall2 (fun o hh => finF o /\
+             (Rabs (FR o - mean (map FR (lastn (N.to_nat p) hh))) <=
+              (1 / 10 ^ 12 + 1 / 10 ^ 15 * (INR (length hh) * R_sqrt.sqrt (INR (length hh)))) * M)%R)
+          (sma_outs' FOps s xs) (prefixes_from [] xs).
+Proof. exact sma_float_within_tau. Qed.
+(* the explicit bound behind it: (9t+1) * 2^-53 * M + (5t+1) * 2^-1075 *)
+Theorem C01_sma_binary64_error : forall p s xs M, sma_new FOps p = Ok s -> (p < 9007199254740992)%N -> (0 <= M)%R ->
+  Forall (okin M) xs -> (3 * ((INR (N.to_nat p) + 2) * M + 1) <= BIG)%R -> (INR (length xs) * u <= / 16)%R ->
+  Forall2 (fun o hh => finF o /\ (Rabs (FR o - mean (map FR (lastn (N.to_nat p) hh))) <= out_bound M (length hh))%R)
+          (sma_outs' FOps s xs) (prefixes_from [] xs).
+Proof. exact sma_float_error. Qed.
+
 From Coq Require Import List Floats.
 From TA Require Import Generic FloatInst XQ Run2 Par.Hom Par.Var Par.Oracle.
 (* the T2 oracle (exact rational run, evaluated by the checks) is the image of the exact real run these
